@@ -27,9 +27,24 @@ pub fn set_current_case(text: &str) {
     CUR_LEN.store(n, Release);
     // per-case watchdog: a single case that runs longer than this is reported (with the case) and the process exits
     // with status 124; the driver treats that as "hang" (exit 2, never a violation) instead of waiting for its own watchdog
+    // The limit is CPU time of this process (ITIMER_PROF), not wall-clock time: a loaded machine must not turn a slow case
+    // into a "hang"; a generous wall-clock alarm (20x) stays as a backstop for a case that blocks without using CPU.
+    let secs = CASE_ALARM_SECS.load(Relaxed) as i64;
     unsafe {
-        alarm(CASE_ALARM_SECS.load(Relaxed) as u32);
+        let tv = ITimerVal { it_interval: TimeVal { tv_sec: 0, tv_usec: 0 }, it_value: TimeVal { tv_sec: secs, tv_usec: 0 } };
+        setitimer(2 /* ITIMER_PROF */, &tv, std::ptr::null_mut());
+        alarm((secs * 20).min(u32::MAX as i64) as u32);
     }
+}
+#[repr(C)]
+struct TimeVal {
+    tv_sec: i64,
+    tv_usec: i64,
+}
+#[repr(C)]
+struct ITimerVal {
+    it_interval: TimeVal,
+    it_value: TimeVal,
 }
 pub static CASE_ALARM_SECS: AtomicUsize = AtomicUsize::new(60);
 
@@ -38,6 +53,7 @@ extern "C" {
     fn write(fd: i32, buf: *const u8, n: usize) -> isize;
     fn _exit(code: i32) -> !;
     fn alarm(seconds: u32) -> u32;
+    fn setitimer(which: i32, new_value: *const ITimerVal, old_value: *mut ITimerVal) -> i32;
 }
 
 extern "C" fn on_fatal(sig: i32) {
@@ -48,7 +64,7 @@ extern "C" fn on_fatal(sig: i32) {
         write(2, CUR.0.get() as *const u8, n);
         let tail = b"\n@@CRASH-CASE-END@@\n";
         write(2, tail.as_ptr(), tail.len());
-        if sig == 14 {
+        if sig == 14 || sig == 27 {
             let h = b"@@HANG@@ a single case exceeded the per-case time limit\n";
             write(2, h.as_ptr(), h.len());
             _exit(124);
@@ -59,7 +75,7 @@ extern "C" fn on_fatal(sig: i32) {
 
 pub fn install_crash_reporter() {
     unsafe {
-        for s in [11, 7, 6, 4, 8, 14] {
+        for s in [11, 7, 6, 4, 8, 14, 27] {
             signal(s, on_fatal as *const () as usize);
         }
     }
